@@ -172,6 +172,16 @@ def r03_4(run):
                    slot='notify-inside-snapshot',
                    message='connectionLost copies the outstanding commands, then runs %s, then resets the queue: a command submitted by '
                            'that observer is in neither and never fires' % src(nn.ast)[:60])
+    # (c) _when_disconnected is what _maybe_issue_command consults before writing: it is latched before any other
+    # user code (the deprecated on_disconnect callbacks) runs, otherwise a command submitted there is written after the loss
+    fires = [n for n in notif if any(is_call_to(a, 'self._when_disconnected.fire') for a in node_asts(n))]
+    for nn in notif:
+        if nn in fires:
+            continue
+        ok = any(g.dominates(fn, nn) for fn in fires)
+        run.ob('R03.4', cl, nn.ast, 'the disconnected latch is set before any other observer runs', ok, slot='latch-first',
+               message='connectionLost runs %s before _when_disconnected.fire(): a command submitted from that callback passes the '
+                       '"already disconnected" test and is written to the dead transport' % src(nn.ast)[:50])
     # (b)
     k = 0
     for lp in loops:
@@ -277,11 +287,15 @@ MUTANTS = [
     M('write-before-loss-test', F, "            if self._when_disconnected.already_fired(d):\n                self.command = None\n                return\n", "", ['R03.3']),
     M('loop-unpacks-split', F, "            if not d.called:\n                d.errback(", "            if not d.called:\n                kw, _ = cmd.decode('ascii').split(' ', 1)\n                d.errback(", ['R03.4']),
     M('snapshot-before-notify', F, ["        txtorlog.msg('connection terminated: ' + str(reason))\n", "        outstanding = [self.command] + self.commands if self.command else self.commands\n        self.command = None"], ["        txtorlog.msg('connection terminated: ' + str(reason))\n        outstanding = [self.command] + self.commands if self.command else self.commands\n", "        self.command = None"], ['R03.4']),
+    M('so-reentrant-request-lost', 'txtorcon/util.py', ["        if self._fired is not self._NotFired:\n            d.callback(self._fired)\n        else:\n            self._observers.append(d)", "        for d in self._observers:\n            d.callback(self._fired)"], ["        if self._observers is None:\n            d.callback(self._fired)\n        else:\n            self._observers.append(d)", "        for d in list(self._observers):\n            d.callback(self._fired)"], ['R-SO']),
+    M('fire-after-on-disconnect', F, ["        txtorlog.msg('connection terminated: ' + str(reason))\n        self._when_disconnected.fire(\n            Failure(\n                TorDisconnectError(\n                    text=\"Tor connection terminated\",\n                    error=reason,\n                )\n            )\n        )\n", "        self.on_disconnect = None\n\n        outstanding"], ["        txtorlog.msg('connection terminated: ' + str(reason))\n", "        self.on_disconnect = None\n        self._when_disconnected.fire(Failure(TorDisconnectError(text=\"Tor connection terminated\", error=reason)))\n\n        outstanding"], ['R03.4']),
     M('so-no-latch', 'txtorcon/util.py', "            d.callback(self._fired)\n        self._observers = None\n", "            d.callback(self._fired)\n", ['R-SO']),
     M('so-no-guard', 'txtorcon/util.py', "        if self._observers is None:\n            return  # raise RuntimeError(\"already fired\") ?\n", "", ['R-SO']),
     M('so-when-fired-registers-always', 'txtorcon/util.py', "            d.callback(self._fired)\n        else:\n            self._observers.append(d)", "            d.callback(self._fired)\n        if self._observers is not None:\n            self._observers.append(d)", ['R-SO']),
 ]
 TWINS = [
+    M('so-copy-iteration-alone', 'txtorcon/util.py', "        for d in self._observers:\n            d.callback(self._fired)", "        for d in list(self._observers):\n            d.callback(self._fired)"),
+    M('so-slot-test-alone', 'txtorcon/util.py', "        if self._fired is not self._NotFired:\n            d.callback(self._fired)\n        else:\n            self._observers.append(d)", "        if self._observers is None:\n            d.callback(self._fired)\n        else:\n            self._observers.append(d)"),
     M('loop-keyword-safe', F, "            if not d.called:\n                d.errback(", "            if not d.called:\n                kw = cmd.decode('ascii').split(' ', 1)[0]\n                d.errback("),
     M('deque-queue', F, ["from warnings import warn\n", "        self.commands = []       # queued commands", "            self.command = self.commands.pop(0)", "        outstanding = [self.command] + self.commands if self.command else self.commands", "        self.defer = None\n        self.commands = []\n"], ["from warnings import warn\nfrom collections import deque\n", "        self.commands = deque()  # queued commands", "            self.command = self.commands.popleft()", "        outstanding = [self.command] + list(self.commands) if self.command else list(self.commands)", "        self.defer = None\n        self.commands = deque()\n"]),
     M('drain-in-loop', F, "        outstanding = [self.command] + self.commands if self.command else self.commands\n        self.command = None\n        self.defer = None\n        self.commands = []\n", "        outstanding = [self.command] + self.commands if self.command else list(self.commands)\n        self.command = None\n        self.defer = None\n        del self.commands[:]\n"),
